@@ -295,6 +295,43 @@ def system_level(ctx: Ctx) -> None:
                                + (" whose last recorded executions took 85 s, 60 s and 10 s" if recorded else "") + ", asked every second: "
                                + (f"{g[1]} is still authorised at +{g[3]} s and {g[2]} already at +{g[4]} s (gap {g[0]} s < 30 s)" if g else "two runners authorised at once"),
                                {"kind": "system-margin", "backend": kind, "recorded": recorded, "gaps": [x[0] for x in gaps]})
+            # (f) the configuration every application starts with (cycle 5 min, margin 1 min, the runners ask every 30 s), four and
+            #     twelve runners: how often a runner ASKS has no say in when it may run
+            for nr in ((4,) if ctx.quick else (4, 7, 12)):
+                app6 = make_app(kind, ctx.tmp, app_id=f"c12dflt{kind}{nr}", atomic_service_interval_minutes=5.0, atomic_service_spread_margin_minutes=1.0,
+                                atomic_service_check_interval_minutes=0.5, runner_considered_dead_after_minutes=10.0)
+                o6 = app6.orchestrator
+                names = [f"r{j:02d}" for j in range(nr)]
+                for r in names:
+                    o6.register_runner_heartbeats([r], can_run_atomic_service=True)
+                    clock.advance(1_000)
+                base = clock.us // 1_000_000 % 300
+                clock.advance((300 - base) * 1_000_000)
+                owner6: list = []
+                for sec in range(300):
+                    if sec % 60 == 0:
+                        o6.register_runner_heartbeats(names, can_run_atomic_service=True)
+                    auth = [r for r in names if o6.should_run_atomic_service(rctx(r))]
+                    owner6.append(auth)
+                    clock.advance(1_000_000)
+                    ctx.count()
+                both = next(((sec, a) for sec, a in enumerate(owner6) if len(a) > 1), None)
+                gaps6 = []
+                last_owner, last_t = None, None
+                for sec, a in enumerate(owner6):
+                    if len(a) == 1:
+                        if last_owner is not None and a[0] != last_owner:
+                            gaps6.append((sec - last_t, last_owner, a[0], last_t, sec))
+                        last_owner, last_t = a[0], sec
+                slot = 300.0 / nr
+                need = 60.0 if slot > 60.0 else 0.0          # the margin fits into a slot only then
+                ctx.distinct((kind, "default-configuration", nr, tuple(g[0] for g in gaps6)))
+                small = [g for g in gaps6 if g[0] < need - 1]
+                if both or small:
+                    ctx.report(f"{'two-authorised' if both else 'margin-not-kept'}[{kind}]:default-configuration",
+                               f"[{kind}] cycle 5 min, margin 1 min, runners asking every 30 s (the defaults), {nr} runners, asked every second over one cycle: "
+                               + (f"{both[1]} are authorised together at +{both[0]} s" if both else f"{small[0][1]} is still authorised at +{small[0][3]} s and {small[0][2]} already at +{small[0][4]} s (gap {small[0][0]} s < 60 s)"),
+                               {"kind": "system-default-config", "backend": kind, "runners": nr})
     finally:
         rb.time = real_time_mod
         clock.uninstall()
